@@ -260,6 +260,19 @@ impl EmbeddingValidator {
             });
         }
 
+        // A deserialized vector is not guaranteed to keep positions and values parallel;
+        // consumers index `values` by the index of a position.
+        if embedding.positions().len() != embedding.values().len() {
+            return Err(ChainError::InvalidEmbedding {
+                dimension: dim,
+                reason: format!(
+                    "{field}: {} positions but {} values",
+                    embedding.positions().len(),
+                    embedding.values().len()
+                ),
+            });
+        }
+
         // Check for NaN/Inf values
         for (i, value) in embedding.values().iter().enumerate() {
             if value.is_nan() {
